@@ -215,10 +215,10 @@ type runState struct {
 }
 
 type modeStats struct {
-	Evaluations int64 `json:"evaluations"`
-	Workers     int   `json:"worker_processes"`
-	Crashes     int   `json:"crashes"`
-	Restarts    int   `json:"restarts"`
+	Evaluations int64   `json:"evaluations"`
+	Workers     int     `json:"worker_processes"`
+	Crashes     int     `json:"crashes"`
+	Restarts    int     `json:"restarts"`
 	WallS       float64 `json:"wall_s"`
 }
 
@@ -894,7 +894,7 @@ func main() {
 			return r
 		}(),
 		"violations_attributed_to_known_findings": attributed,
-		"violation_keys":                          order,
+		"violation_keys": order,
 	}
 	if len(rs.samples) == 0 {
 		cov["samples"] = []any{"(no sample emitted)"}
